@@ -373,5 +373,11 @@ pub fn gen_intent(rng: &mut Rng, spec: &WorldSpec, nonce: u32, knobs: &ProgKnobs
         1 => TargetSpec::Exact { wl: wl.id, head: rng.pick(&wl.heads).label },
         _ => TargetSpec::Default { wl: wl.id },
     };
-    Intent { kind: rng.below(3) as u8, prog, target }
+    let kind = rng.below(3) as u8;
+    let mut prog = prog;
+    if rng.chance(1, 8) {
+        // touch something the same commit's ingress materialisation created
+        prog.steps.push(super::prog::Step::DeleteKindEdge { kind });
+    }
+    Intent { kind, prog, target }
 }
